@@ -194,19 +194,47 @@ def _solved_world(w, rng, post_solve_leaf=None):
 
 
 def gen_point_eval(w, rng):
+    if rng.random() < 0.3:
+        p = w.Point(is_leaf=False, decomposition_dict=w.point_dict())
+        _targeted_unsolved(w, rng, p)
+        return {'self': p}
     _solved_world(w, rng)
     return {'self': w.point()}
 
 
+def _targeted_unsolved(w, rng, e):
+    """boundary regime: every leaf has a value except one, which enters the combination with weight 0 (or a tiny weight)"""
+    import numpy as np
+    n = len(w.leaf_points)
+    for p in w.leaf_points:
+        p._value = np.array([rng.choice([-1, 0.5, 2]) for _ in range(n)], dtype=float)
+    for x in w.leaf_exprs:
+        x._value = float(rng.choice([-1, 0.5, 3]))
+    keys = list(e.decomposition_dict)
+    leafy = [k for k in keys if not (k == 1 and not hasattr(k, 'decomposition_dict'))]
+    if not leafy:
+        return
+    k = rng.choice(leafy)
+    e.decomposition_dict[k] = rng.choice([0, 0, 0.0, 1])
+    victim = k[rng.randrange(2)] if isinstance(k, tuple) else k
+    victim._value = None
+
+
 def gen_expr_eval(w, rng):
+    mode = rng.random()
+    if mode < 0.35:
+        e = w.Expression(is_leaf=False, decomposition_dict=w.expr_dict())
+        _targeted_unsolved(w, rng, e)
+        return {'self': e}
     _solved_world(w, rng, post_solve_leaf=False)
-    e = w.expression()
-    if not e._is_leaf:
-        e.decomposition_dict = {k: v for k, v in e.decomposition_dict.items()}
-    return {'self': e}
+    return {'self': w.expression()}
 
 
 def gen_cons_eval(w, rng):
+    if rng.random() < 0.3:
+        e = w.Expression(is_leaf=False, decomposition_dict=w.expr_dict())
+        _targeted_unsolved(w, rng, e)
+        return {'self': w.Constraint(e, rng.choice(['equality', 'inequality']))}
     _solved_world(w, rng, post_solve_leaf=False)
     c = w.Constraint(w.expression(), rng.choice(['equality', 'inequality']))
     if rng.random() < 0.3:
@@ -228,6 +256,13 @@ def _expr_value(e):
 
 
 def oracle_expr_eval(argvals, out, pre):
+    try:
+        return _oracle_expr_eval(argvals, out, pre)
+    except TypeError:
+        return []          # an operand has no value: the exceptional clauses of the contract decide this run
+
+
+def _oracle_expr_eval(argvals, out, pre):
     e = argvals['self']
     if e._is_leaf:
         return []
@@ -238,6 +273,13 @@ def oracle_expr_eval(argvals, out, pre):
 
 
 def oracle_point_eval(argvals, out, pre):
+    try:
+        return _oracle_point_eval(argvals, out, pre)
+    except TypeError:
+        return []          # an operand has no value: the exceptional clauses of the contract decide this run
+
+
+def _oracle_point_eval(argvals, out, pre):
     import numpy as np
     p = argvals['self']
     if p._is_leaf:
@@ -252,6 +294,13 @@ def oracle_point_eval(argvals, out, pre):
 
 
 def oracle_cons_eval(argvals, out, pre):
+    try:
+        return _oracle_cons_eval(argvals, out, pre)
+    except TypeError:
+        return []          # an operand has no value: the exceptional clauses of the contract decide this run
+
+
+def _oracle_cons_eval(argvals, out, pre):
     c = argvals['self']
     want = _expr_value(c.expression) if not c.expression._is_leaf else c.expression._value
     if abs(out - want) > 1e-9 * (1 + abs(want)):
